@@ -89,6 +89,8 @@ DelRow(n, a) == /\ a \in 1..NR /\ a + n - 1 <= NR /\ NR - n >= 1
 DelCol(n, a) == /\ a \in 1..NC /\ a + n - 1 <= NC /\ NC - n >= 1
                 /\ grid' = DelCols(grid, a, n) /\ merges' = DelMerges(merges, 2, a, n) /\ UNCHANGED disk
                 /\ Ev([op |-> "delcol", n |-> n, at |-> a, cut |-> AnyCut(merges, "del", 2, a, n)])
+\* a sibling table is added to the sheet (Sheet.add_table): this table is not affected, and the new one starts without merges
+AddTable == UNCHANGED <<grid, merges, disk>> /\ Ev([op |-> "addtable"])
 Save == /\ disk' = <<grid, merges>> /\ UNCHANGED <<grid, merges>> /\ Ev([op |-> "save"])
 Reopen == /\ disk # <<>> /\ grid' = disk[1] /\ merges' = disk[2] /\ UNCHANGED disk /\ Ev([op |-> "reopen"])
 
@@ -100,6 +102,7 @@ Next == \/ "merge" \in OpsOn /\ \E rs \in RectSets : Merge(rs)
         \/ "addcol" \in OpsOn /\ \E a \in 1..(MaxC + 1), d \in Defs : AddCol(1, a, d)
         \/ "delrow" \in OpsOn /\ \E a \in 1..MaxR : DelRow(1, a)
         \/ "delcol" \in OpsOn /\ \E a \in 1..MaxC : DelCol(1, a)
+        \/ "addtable" \in OpsOn /\ AddTable
         \/ "save" \in OpsOn /\ Save
         \/ "reopen" \in OpsOn /\ Reopen
 Spec == Init /\ [][Next]_vars
